@@ -36,9 +36,10 @@ def _judge(p, raised, returned):
     det["wire"] = p.get("wire")
     wrong_state = p["state"] not in ("expected", "absent")
     if p["err"] == "absent" and not wrong_state:
+        # an honest reply that fails under some legal HTTP spelling is not C04's business (C07/C08/C13 judge that); the error cells of that
+        # spelling are then vacuous, which the evidence shows as outcome "honest-fails-under-style"
         if p.get("wire") and raised is not None:
-            # not C04's business as such, but every error cell of this wire style would pass vacuously
-            return [(f"harness:honest-reply-in-legal-http-style-fails:{p['wire']}", dict(det, err=repr(raised)[:160]))]
+            p["_vacuous_style"] = True
         return []
     sa = "state-absent" if p["state"] == "absent" else ("state-wrong" if wrong_state else "state-ok")
     if raised is None:
